@@ -1,9 +1,281 @@
-//! stub
-use super::Ctx;
-use crate::engine::evidence::{Case, Report, Verdict};
-pub fn run(_ctx: &Ctx, _rep: &mut Report) {
-    crate::engine::monitor::machinery_fail("not implemented");
+//! C07 - hand ranks form a lawful total order in which stronger hands are greater.
+//!
+//! Space: all 65,536 x 65,536 ordered pairs of converted values, in two passes:
+//!   pass 1 computes below(a) = #{b : cmp(b, a) == Less};
+//!   pass 2 checks on every pair that cmp(a, b) == below(a).cmp(below(b)) - an integer key reproducing the
+//!   comparison, which settles transitivity and antisymmetry over ALL triples without enumerating them - that
+//!   partial_cmp, <, <=, >, >= agree with cmp, that cmp == Equal exactly when a == b, and the two directional clauses.
+//! Plus all adjacent value pairs for the derived order of the category and class enumerations.
+//! The check does not prescribe HOW two distinct invalid ranks are ordered, only that the order is lawful.
+use super::{confirm, oracle, sample_json, Ctx};
+use crate::engine::enumerate::par_parts;
+use crate::engine::evidence::{Acc, Case, Report, Verdict};
+use crate::engine::monitor::{self, guard};
+use crate::oracle::poker::{cat_text, class_text};
+use ckc_rs::hand_rank::{HandRank, HandRankClass, HandRankName};
+use std::cmp::Ordering;
+use std::sync::OnceLock;
+use std::time::Instant;
+
+static BELOW: OnceLock<Vec<u32>> = OnceLock::new();
+
+fn ranks() -> Vec<HandRank> {
+    (0..=65535u16).map(HandRank::from).collect()
 }
-pub fn judge(_case: &Case) -> Verdict {
-    Verdict::NotJudged("not implemented".into())
+
+fn below() -> &'static Vec<u32> {
+    BELOW.get_or_init(|| {
+        let r = ranks();
+        let parts = par_parts(256, |p| {
+            let mut out = Vec::with_capacity(256);
+            for a in p * 256..(p + 1) * 256 {
+                monitor::tick();
+                let ra = r[a];
+                let mut n = 0u32;
+                for rb in r.iter() {
+                    if rb.cmp(&ra) == Ordering::Less {
+                        n += 1;
+                    }
+                }
+                out.push(n);
+            }
+            out
+        });
+        parts.into_iter().flatten().collect()
+    })
+}
+
+fn valid(v: u16) -> bool {
+    (1..=7462).contains(&v)
+}
+
+/// Case kinds: "pair" [a, b]; "adjacent" [v] (the enumerations at v and v + 1); "invalid-greatest" [v].
+pub fn judge(case: &Case) -> Verdict {
+    match case.kind.as_str() {
+        "pair" => {
+            if case.words.len() != 2 || case.words.iter().any(|w| *w > 65535) {
+                return Verdict::NotJudged("two 16-bit values".into());
+            }
+            let (a, b) = (case.words[0] as u16, case.words[1] as u16);
+            let bl = below();
+            let r = guard(|| {
+                let (ra, rb) = (HandRank::from(a), HandRank::from(b));
+                (ra.cmp(&rb), ra.partial_cmp(&rb), ra < rb, ra <= rb, ra > rb, ra >= rb, ra == rb)
+            });
+            let (c, pc, lt, le, gt, ge, eq) = match r {
+                Err(p) => return Verdict::Violated { class: "panic:pair".into(), expected: "a comparison result".into(), observed: format!("panic: {}", p) },
+                Ok(x) => x,
+            };
+            let what = format!("from({}) vs from({})", a, b);
+            let kindness = match (valid(a), valid(b)) {
+                (true, true) => "both-valid",
+                (false, false) => "both-invalid",
+                _ => "valid-vs-invalid",
+            };
+            if pc != Some(c) {
+                return Verdict::Violated { class: format!("partial_cmp-disagrees:{}", kindness), expected: format!("partial_cmp == Some({:?}) for {}", c, what), observed: format!("{:?}", pc) };
+            }
+            if lt != (c == Ordering::Less) || le != (c != Ordering::Greater) || gt != (c == Ordering::Greater) || ge != (c != Ordering::Less) {
+                return Verdict::Violated { class: format!("operators-disagree:{}", kindness), expected: format!("< <= > >= follow cmp == {:?} for {}", c, what), observed: format!("< {} <= {} > {} >= {}", lt, le, gt, ge) };
+            }
+            if (c == Ordering::Equal) != eq {
+                return Verdict::Violated {
+                    class: format!("{}:{}", if eq { "eq-but-cmp-not-equal" } else { "cmp-equal-but-not-eq" }, kindness),
+                    expected: format!("cmp == Equal exactly when the ranks are equal, for {}", what),
+                    observed: format!("cmp {:?}, == {}", c, eq),
+                };
+            }
+            if valid(a) && valid(b) {
+                let exp = b.cmp(&a); // lower value = stronger = greater
+                if c != exp {
+                    return Verdict::Violated { class: "direction:both-valid".into(), expected: format!("{:?} for {} (lower value is stronger)", exp, what), observed: format!("{:?}", c) };
+                }
+            }
+            if !valid(a) && valid(b) && c != Ordering::Less {
+                return Verdict::Violated { class: "direction:invalid-not-below-valid".into(), expected: format!("Less for {}", what), observed: format!("{:?}", c) };
+            }
+            if valid(a) && !valid(b) && c != Ordering::Greater {
+                return Verdict::Violated { class: "direction:valid-not-above-invalid".into(), expected: format!("Greater for {}", what), observed: format!("{:?}", c) };
+            }
+            let key = bl[a as usize].cmp(&bl[b as usize]);
+            if c != key {
+                return Verdict::Violated {
+                    class: format!("not-a-total-order:{}", kindness),
+                    expected: format!("cmp agrees with the integer key below(x) = #{{y : y < x}}: {:?} for {} (below {} vs {})", key, what, bl[a as usize], bl[b as usize]),
+                    observed: format!("{:?}", c),
+                };
+            }
+            Verdict::Holds
+        }
+        "adjacent" => {
+            let v = match case.words.first() {
+                Some(v) if (1..7462).contains(v) => *v as u16,
+                _ => return Verdict::NotJudged("v in 1..7462".into()),
+            };
+            let o = oracle();
+            let (k1, k2) = (o.key_of_ord(v).unwrap(), o.key_of_ord(v + 1).unwrap());
+            let r = guard(|| {
+                let (a, b) = (HandRank::from(v), HandRank::from(v + 1));
+                (a.name.cmp(&b.name), a.class.cmp(&b.class))
+            });
+            let (cn, cc) = match r {
+                Err(p) => return Verdict::Violated { class: "panic:adjacent".into(), expected: "orderings".into(), observed: format!("panic: {}", p) },
+                Ok(x) => x,
+            };
+            let en = if cat_text(k1) != cat_text(k2) { Ordering::Less } else { Ordering::Equal };
+            let ec = if class_text(k1) != class_text(k2) { Ordering::Less } else { Ordering::Equal };
+            if cn != en {
+                return Verdict::Violated { class: "category-enum-order".into(), expected: format!("name({}) {:?} name({}) (strongest first, strict exactly at a category change)", v, en, v + 1), observed: format!("{:?}", cn) };
+            }
+            if cc != ec {
+                return Verdict::Violated { class: "class-enum-order".into(), expected: format!("class({}) {:?} class({}) (strongest first, strict exactly at a class change: {} -> {})", v, ec, v + 1, class_text(k1), class_text(k2)), observed: format!("{:?}", cc) };
+            }
+            Verdict::Holds
+        }
+        "invalid-greatest" => {
+            let v = match case.words.first() {
+                Some(v) if (1..=7462).contains(v) => *v as u16,
+                _ => return Verdict::NotJudged("v in 1..=7462".into()),
+            };
+            match guard(|| {
+                let a = HandRank::from(v);
+                a.name < HandRankName::Invalid && a.class < HandRankClass::Invalid
+            }) {
+                Ok(true) => Verdict::Holds,
+                other => Verdict::Violated { class: "invalid-not-last-in-enum-order".into(), expected: format!("name({}) and class({}) sort before Invalid", v, v), observed: format!("{:?}", other) },
+            }
+        }
+        _ => Verdict::NotJudged("unknown kind".into()),
+    }
+}
+
+pub fn run(_ctx: &Ctx, rep: &mut Report) {
+    let r = ranks();
+    // pass 1
+    let t0 = Instant::now();
+    let bl = below();
+    let mut distinct_keys: Vec<u32> = bl.clone();
+    distinct_keys.sort_unstable();
+    distinct_keys.dedup();
+    rep.hist_add("distinct_integer_keys", distinct_keys.len() as u64);
+    let pass1 = Acc { cases: 65536, calls: 65536u64 * 65536, nontrivial: 0, ..Acc::new(1) };
+    rep.add_space("pass 1: below(a) for every a (65,536^2 comparisons)", &pass1, t0, "builds the integer key from the run itself");
+    // pass 2
+    let t0 = Instant::now();
+    let kind = monitor::kind_id("pair");
+    let accs = par_parts(1024, |p| {
+        let mut acc = Acc::new(4);
+        for a in p * 64..(p + 1) * 64 {
+            monitor::beat(kind, &[a as u64, 0]);
+            let ra = r[a];
+            let ka = bl[a];
+            let va = valid(a as u16);
+            let res = guard(|| {
+                let mut bad: Vec<u32> = Vec::new();
+                let mut eqs = 0u64;
+                for b in 0..65536usize {
+                    let rb = r[b];
+                    let c = ra.cmp(&rb);
+                    let mut ok = c == ka.cmp(&bl[b]);
+                    ok &= ra.partial_cmp(&rb) == Some(c);
+                    ok &= (ra < rb) == (c == Ordering::Less) && (ra <= rb) == (c != Ordering::Greater) && (ra > rb) == (c == Ordering::Greater) && (ra >= rb) == (c != Ordering::Less);
+                    ok &= (c == Ordering::Equal) == (ra == rb);
+                    let vb = valid(b as u16);
+                    if va && vb {
+                        ok &= c == b.cmp(&a);
+                    } else if !va && vb {
+                        ok &= c == Ordering::Less;
+                    } else if va && !vb {
+                        ok &= c == Ordering::Greater;
+                    }
+                    if c == Ordering::Equal {
+                        eqs += 1;
+                    }
+                    if !ok && bad.len() < 3 {
+                        bad.push(b as u32);
+                    }
+                    if !ok {
+                        eqs += 1 << 32;
+                    }
+                }
+                (bad, eqs)
+            });
+            acc.cases += 65536;
+            acc.calls += 65536 * 7;
+            match res {
+                Ok((bad, eqs)) => {
+                    acc.hist[0] += eqs & 0xFFFF_FFFF;
+                    let nbad = eqs >> 32;
+                    if nbad > 0 {
+                        for b in bad {
+                            match confirm(judge, Case::new("pair", &[a as u64, b as u64])) {
+                                Some(v) => acc.violate(v),
+                                None => monitor::machinery_fail("C07 fast path mismatch not reproduced"),
+                            }
+                        }
+                        acc.viol_count += nbad.saturating_sub(3.min(nbad));
+                    }
+                }
+                Err(_) => {
+                    for b in 0..65536u64 {
+                        if let Some(v) = confirm(judge, Case::new("pair", &[a as u64, b])) {
+                            acc.violate(v);
+                            break;
+                        }
+                    }
+                }
+            }
+            if va {
+                acc.nontrivial += 65536;
+            } else {
+                acc.nontrivial += 7462;
+            }
+        }
+        acc
+    });
+    let acc = Acc::merged(accs);
+    rep.hist_add("ordered_pairs_comparing_equal", acc.hist[0]);
+    rep.add_space("pass 2: every ordered pair of the 65,536 converted values", &acc, t0, "cmp vs integer key, partial_cmp, four operators, Equal <=> ==, direction clauses");
+    rep.guard("pass 2 covered 2^32 pairs", acc.cases == 1u64 << 32, format!("{}", acc.cases));
+    // enumerations
+    let t0 = Instant::now();
+    let mut acc = Acc::new(1);
+    let mut strict_name = 0;
+    let mut strict_class = 0;
+    for v in 1..7462u64 {
+        acc.cases += 1;
+        acc.calls += 2;
+        match confirm(judge, Case::new("adjacent", &[v])) {
+            Some(x) => acc.violate(x),
+            None => {
+                let (a, b) = (HandRank::from(v as u16), HandRank::from(v as u16 + 1));
+                if a.name != b.name {
+                    strict_name += 1;
+                }
+                if a.class != b.class {
+                    strict_class += 1;
+                    acc.nontrivial += 1;
+                }
+            }
+        }
+    }
+    for v in 1..=7462u64 {
+        acc.cases += 1;
+        acc.calls += 2;
+        if let Some(x) = confirm(judge, Case::new("invalid-greatest", &[v])) {
+            acc.violate(x);
+        }
+    }
+    rep.hist_add("adjacent_pairs_where_category_changes", strict_name);
+    rep.hist_add("adjacent_pairs_where_class_changes", strict_class);
+    if acc.viol_count == 0 {
+        rep.guard("category changes 8 times, class 308 times along 1..=7462", strict_name == 8 && strict_class == 308, format!("{} {}", strict_name, strict_class));
+    }
+    rep.add_space("adjacent values 1..=7462: derived order of category and class enumerations", &acc, t0, "non-decreasing, strict exactly at an oracle category / class change; Invalid last");
+    rep.sample(sample_json("pair", "from(1) vs from(2)", &format!("{:?}", HandRank::from(1).cmp(&HandRank::from(2)))));
+    rep.sample(sample_json("pair", "from(0) vs from(7463)", &format!("cmp {:?}, == {}", HandRank::from(0).cmp(&HandRank::from(7463)), HandRank::from(0) == HandRank::from(7463))));
+    rep.sample(sample_json("pair", "from(0) vs from(7462)", &format!("{:?}", HandRank::from(0).cmp(&HandRank::from(7462)))));
+    rep.rule = "distinct ordered pairs (a, b) of 16-bit values; non-trivial = pairs involving at least one valid rank (the order among invalid ranks is only required to be lawful); for the enumerations, adjacent values where the class changes".into();
+    rep.bound = "none: all 2^32 ordered pairs; transitivity over all triples follows from agreement with an integer key".into();
+    rep.assume("a comparison that agrees on every pair with the order of an integer key is transitive and antisymmetric up to key equality; together with Equal <=> == it is a total order consistent with equality");
 }
